@@ -251,6 +251,9 @@ def gen_worker_script(rs: int, knobs: Optional[dict] = None) -> dict:
         mws.append({"hooks": hooks})
     if kn["retry"] is not None:
         mws.insert(rc.randint(0, len(mws)), {"retry": kn["retry"]})
+        if stream(rs, "retry_sub").random() < 0.35:
+            # a project subclass of the stock retry middleware that defines no hook itself (all of them are inherited)
+            cfg["retry_sub"] = True
     cfg["middlewares"] = mws
     if len(mws) >= 2 and rc.random() < 0.4:
         cfg["mw_split"] = [rc.randint(1, len(mws) - 1), rc.choice(["with+with", "add+with", "with+add", "add+add"])]
